@@ -151,10 +151,11 @@ int __wrap_pthread_mutex_lock(pthread_mutex_t *m) {
 }
 
 static void free_snapshot(char *buf, size_t n);
+static void st_before_free(void);
 
 int __wrap_pthread_mutex_unlock(pthread_mutex_t *m) {
   if (me && !ctl_active && free_trace && is_exec_mutex(m)) {
-    char sb[8192];
+    char sb[512];
     free_snapshot(sb, sizeof(sb));
     tr("%d unlock %s", my_tr_id(), sb);
   }
@@ -173,7 +174,7 @@ int __wrap_pthread_cond_wait(pthread_cond_t *c, pthread_mutex_t *m) {
       me->wc = 0;
       return 0;
     } else if (free_trace) {
-      char sb[8192];
+      char sb[512];
       free_snapshot(sb, sizeof(sb));
       tr("%d wait %c %s", my_tr_id(), c == cond_q ? 'q' : 'w', sb);
       int r = __real_pthread_cond_wait(c, m);
@@ -286,6 +287,7 @@ int __wrap_pthread_join(pthread_t th, void **ret) {
   } else if (me && free_trace) {
     int r = __real_pthread_join(th, ret);
     for (int i = 0; i < nworkers; ++i) if (!workers[i]->detached && pthread_equal(workers[i]->th, th)) tr("%d joined %d", my_tr_id(), workers[i]->tr_id);
+    st_before_free();
     return r;
   }
   return __real_pthread_join(th, ret);
@@ -301,7 +303,7 @@ static void task_fn(void *arg) {
     ev("fin:%d", id);
   } else {
     if (free_trace) tr("%d start %d", my_tr_id(), id);
-    int n = task_spin ? (id * 7919) % task_spin : 0;
+    int n = task_spin ? (int) (((unsigned) id * 7919u) % (unsigned) task_spin) : 0;
     for (volatile int i = 0; i < n; ++i);
     if (n && (id & 7) == 0) sched_yield();
     if (free_trace) tr("%d fin %d", my_tr_id(), id);
@@ -399,7 +401,7 @@ static void print_state(void) {
   static char sb[1 << 16];
   if (exec_freed) printf("freed");
   else {
-    if (exec_kind == 1) c20_stw_snapshot(g_stw, sb, sizeof(sb)); else c20_tp_snapshot(g_tp, sb, sizeof(sb));
+    if (exec_kind == 1) c20_stw_snapshot(g_stw, sb, sizeof(sb), 4096); else c20_tp_snapshot(g_tp, sb, sizeof(sb), 4096);
     printf("%s", sb);
   }
   printf(" w=");
@@ -568,6 +570,9 @@ int main(int argc, char **argv) {
     } else if (!strcmp(w[0], "stress")) {
       teardown();
       do_stress(n, w);
+    } else if (!strcmp(w[0], "selfsd")) {
+      teardown();
+      do_selfsd(n, w);
     } else if (!exec_kind) {
       if (!strcmp(w[0], "call") || !strcmp(w[0], "step") || !strcmp(w[0], "spur") || !strcmp(w[0], "pick") || !strcmp(w[0], "finish") || !strcmp(w[0], "settle")) printf("no-executor\n");
       else printf("bad-op\n");
